@@ -54,6 +54,24 @@ def family(ctx):
         "cfg unwind=1 m=1 | T0: anew 0; spawn 1; lock 0; join 1; unlock 0; adrop 0 | T1: lock 0; unlock 0",
         "cfg unwind=1 m=1 | T0: spawn 1; lock 0; join 1; unlock 0 | T1: lock 0; unlock 0",
         "cfg unwind=1 m=1 | T0: tnew 0; spawn 1; lock 0; join 1; unlock 0; tdrop 0 | T1: lock 0; unlock 0",
+        # the failure is raised in the thread that owns the resource (findings F8, F12, F13: repaired)
+        "cfg unwind=1 n=1 | T0: anew 0; nwait 0",
+        "cfg unwind=1 n=1 | T0: tnew 0; nwait 0",
+        "cfg unwind=1 n=1 | T0: alloc 0; nwait 0",
+        "cfg unwind=1 l=1 n=1 | T0: wr 0; nwait 0",
+        "cfg unwind=1 l=1 n=1 | T0: rd 0; nwait 0",
+        "cfg unwind=1 m=1 n=1 | T0: lock 0; nwait 0",
+        "cfg unwind=1 m=1 v=1 | T0: lock 0; cvwait 0 0",
+        "cfg unwind=1 q=1 | T0: send 0 1; recv 0; recv 0",
+        "cfg unwind=1 x=1 f=1 | T0: blockon 0 0",
+        "cfg unwind=1 x=1 f=1 | T0: blockon 0 1",
+        "cfg unwind=1 x=1 f=1 | T0: spawn 1; st 0 1 rel; join 1 | T1: blockon 0 0",
+        "cfg unwind=1 | T0: alloc 0",
+        "cfg unwind=1 | T0: alloc 0; panic",
+        "cfg unwind=1 | T0: spawn 1; alloc 0; join 1; dealloc 0 | T1: panic",
+        "cfg unwind=1 l=1 n=1 | T0: spawn 1; wr 0; nwait 0 | T1: rd 0; unrd 0",
+        "cfg unwind=1 l=1 n=2 | T0: spawn 1; rd 0; nwait 0 | T1: rd 0; nwait 1",
+        "cfg unwind=1 n=2 | T0: anew 0; aclone 0 1; spawn 1; nwait 0 | T1: nwait 1",
     ]
     return list(dict.fromkeys(out))
 
